@@ -234,8 +234,19 @@ class ResourceMap:
         # Last key is queried at last, as the value has to be
         # discriminated between handles and maps.
         for subkey in keys[:-1]:
-            target_map.handles.pop(subkey, None)    # Overwrite duplicates
-            target_map = target_map.maps.setdefault(subkey, ResourceMap())
+            # Overwrite duplicates (in all layers)
+            for layer in target_map.handles.maps:
+                layer.pop(subkey, None)
+
+            # Missing intermediate maps are resources like any other,
+            # keep track of their parent and key
+            if subkey not in target_map.maps:
+                submap = ResourceMap()
+                submap.parent = target_map
+                submap.key = subkey
+                target_map.maps[subkey] = submap
+
+            target_map = target_map.maps[subkey]
 
         # For better performance, only one type check is done at this
         # point.
